@@ -1345,6 +1345,8 @@ func main() {
 			decisionFunc("transport/telnet.go", "Telnet.handleControlCharResponse"))
 		fmt.Fprintf(&sw, "(* transport/standard.go Standard.openBase *)\nDefinition standard_open_base_code : list dstmt :=\n  %s.\n",
 			decisionFunc("transport/standard.go", "Standard.openBase"))
+		fmt.Fprintf(&sw, "(* driver/network/acquirepriv.go Driver.processAcquirePriv *)\nDefinition process_acquire_priv_code : list dstmt :=\n  %s.\n",
+			decisionFunc("driver/network/acquirepriv.go", "Driver.processAcquirePriv"))
 		sp := filepath.Join(filepath.Dir(*out), "GeneratedSkel.v")
 		olds, _ := os.ReadFile(sp)
 		if !bytes.Equal(olds, sw.Bytes()) {
